@@ -595,6 +595,8 @@ class JSONAttrList(JSONList):
     """A :class:`JSONList` whose dict-like children will be of type :class:`JSONAttrDict`."""
 
     _backend = __name__ + ".attr"  # type: ignore
+    # Dict-like children are attribute-access dicts, whose keys may not contain dots.
+    _validators = (no_dot_in_key,)
 
 
 class BufferedJSONAttrDict(BufferedJSONDict, AttrDict):
@@ -611,6 +613,8 @@ class BufferedJSONAttrList(BufferedJSONList):
     """A :class:`BufferedJSONList` whose dict-like children will be of type :class:`BufferedJSONAttrDict`."""  # noqa: E501
 
     _backend = __name__ + ".buffered_attr"  # type: ignore
+    # Dict-like children are attribute-access dicts, whose keys may not contain dots.
+    _validators = (no_dot_in_key,)
 
 
 class MemoryBufferedJSONAttrDict(MemoryBufferedJSONDict, AttrDict):
@@ -627,3 +631,5 @@ class MemoryBufferedJSONAttrList(MemoryBufferedJSONList):
     """A :class:`MemoryBufferedJSONList` whose dict-like children will be of type :class:`MemoryBufferedJSONAttrDict`."""  # noqa: E501
 
     _backend = __name__ + ".memory_buffered_attr"  # type: ignore
+    # Dict-like children are attribute-access dicts, whose keys may not contain dots.
+    _validators = (no_dot_in_key,)
